@@ -767,6 +767,16 @@ func c10Sweeps(tier string) []c10In {
 			sw(c10Op{Kind: "refresh", Rev: 4})}},
 		{Core: true, Ops: []c10Op{{Kind: "retain", Rev: 5}, inst, newr, newr, newr, {Kind: "revert"}, {Kind: "retain", Rev: 2},
 			sw(c10Op{Kind: "refresh", Rev: 2, Flags: hook})}},
+		// C13: reverts in both directions with both flags: a not-blocking revert 3->2 marks 3, a forward revert-to 3 keeps the
+		// mark, a plain revert 3->2 must drop it again (Block() = [3]); and the other way round
+		{Core: true, Ops: []c10Op{inst, newr, newr, {Kind: "revert", Flags: c10NotBlocked}, {Kind: "revert-to", Rev: 3},
+			{Kind: "revert"}, {Kind: "revert-to", Rev: 3, Flags: c10NotBlocked}, {Kind: "revert-to", Rev: 1},
+			{Kind: "revert-to", Rev: 3}, {Kind: "revert", Flags: c10NotBlocked}, {Kind: "revert"}, {Kind: "revert-to", Rev: 2},
+			{Kind: "revert-to", Rev: 1, Flags: c10NotBlocked}}},
+		// C12: two kept revisions after the current one (reverted twice), refresh to the first of them: the other goes
+		{Core: true, Ops: []c10Op{inst, newr, newr, {Kind: "revert"}, {Kind: "revert"}, {Kind: "refresh", Rev: 2}}},
+		{Core: true, Ops: []c10Op{{Kind: "retain", Rev: 5}, inst, newr, newr, newr, {Kind: "revert-to", Rev: 1, Flags: c10NotBlocked},
+			sw(c10Op{Kind: "refresh", Rev: 3})}},
 		// C11: remove --revision of a disabled snap: the current one when it is not the last kept one (after a revert), a
 		// non-current one, then the current one again, enable
 		{Core: true, Ops: []c10Op{inst, newr, newr, {Kind: "revert"}, {Kind: "disable"}, {Kind: "remove-rev", Rev: 2},
@@ -826,6 +836,31 @@ func c10Gen(r *vh.Rand, tier string, n int) []c10In {
 			in.Ops = append(in.Ops, op)
 		}
 		in.Ops = append(in.Ops, c10RandOp(r, true))
+		ins = append(ins, in)
+	}
+	// revert histories: several kept revisions, then reverts / revert-to in both directions, blocking and not, now and then a
+	// refresh to one of the revisions after the current one
+	for i := 0; i < (n+2)/3; i++ {
+		in := c10In{Core: true, Ops: []c10Op{{Kind: "retain", Rev: r.Range(3, 5)}, {Kind: "install", Rev: 1, Chan: 1}}}
+		for j, m := 0, r.Range(2, 4); j < m; j++ {
+			in.Ops = append(in.Ops, c10Op{Kind: "refresh"})
+		}
+		for j, m := 0, r.Range(4, 8); j < m; j++ {
+			op := c10Op{Kind: "revert-to", Rev: r.Range(1, 5)}
+			switch r.Intn(8) {
+			case 0, 1, 2:
+				op = c10Op{Kind: "revert"}
+			case 3:
+				op = c10Op{Kind: "refresh", Rev: r.Range(1, 5)}
+			}
+			if op.Kind != "refresh" && r.Chance(1, 2) {
+				op.Flags |= c10NotBlocked
+			}
+			if r.Chance(1, 6) {
+				op.Fail = r.Range(1, 40)
+			}
+			in.Ops = append(in.Ops, op)
+		}
 		ins = append(ins, in)
 	}
 	return ins
